@@ -156,7 +156,7 @@ class ExcAnalysis:
                     h = getattr(h, '_parent', None)
                 if isinstance(h, ast.ExceptHandler):
                     enc = self._handlers_enclosing(_try_of(h), f)
-                sources.append((name, n, enc, 'raise'))
+                sources.append((name, n, enc, 'raise' + _neg_param_cond(n, f)))
             elif isinstance(n, ast.Call):
                 enc = self._handlers_enclosing(n, f)
                 h = n
@@ -495,6 +495,13 @@ class ExcAnalysis:
                         continue
                     sub = self.escapes(cm, cq)
                     for name, (origin, anc) in sub.items():
+                        if '[only if parameter ' in origin and origin.split(' at ')[-1].startswith(f'{cm}:{cq}:'):
+                            # raised only when a parameter is negative: infeasible when the argument is a length
+                            k = int(origin.split('[only if parameter ')[1].split(' ')[0])
+                            gfun, gcls = self.functions_of(cm)[cq]
+                            k2 = k - (1 if gcls is not None and isinstance(node.func, ast.Attribute) else 0)
+                            if 0 <= k2 < len(node.args) and _nonneg(node.args[k2]):
+                                continue
                         if self._survives_anc(anc, enc):
                             cur.setdefault(name, (origin, anc))
             if cur == self._esc[key]:
@@ -593,4 +600,24 @@ def _contains(anc, node):
         if p is anc:
             return True
         p = getattr(p, '_parent', None)
+    return False
+
+
+def _neg_param_cond(raise_node, func):
+    """' [only if parameter k < 0]' when the raise is the body of `if <param> < 0:` at the top level of the function."""
+    p = getattr(raise_node, '_parent', None)
+    if isinstance(p, ast.If) and getattr(p, '_parent', None) is func and raise_node in p.body:
+        t = p.test
+        if isinstance(t, ast.Compare) and len(t.ops) == 1 and isinstance(t.left, ast.Name) and isinstance(t.comparators[0], ast.Constant):
+            names = [a.arg for a in func.args.args]
+            if t.left.id in names and ((isinstance(t.ops[0], ast.Lt) and t.comparators[0].value == 0) or (isinstance(t.ops[0], ast.LtE) and t.comparators[0].value == -1)):
+                return f' [only if parameter {names.index(t.left.id)} < 0]'
+    return ''
+
+
+def _nonneg(e):
+    if isinstance(e, ast.Call) and attr_chain(e.func) == 'len':
+        return True
+    if isinstance(e, ast.Constant) and isinstance(e.value, (int, float)) and e.value >= 0:
+        return True
     return False
